@@ -74,6 +74,7 @@ type knownFinding struct {
 	NoteKey     string         `json:"note_key,omitempty"`
 	NoteRegex   string         `json:"note_regex,omitempty"`
 	Params      map[string]int `json:"params,omitempty"` // harness parameters set while the finding is open (assumes the class away)
+	Template    string         `json:"template,omitempty"` // translation validation: isolated template that fails to compile while the finding is open
 	Witness     *struct {
 		Harness string         `json:"harness"`
 		Vector  []uint64       `json:"vector"`
@@ -597,6 +598,19 @@ func cmdCheck(args []string) int {
 	// Known-finding witnesses: replay each on every run.
 	var kfLines []string
 	for _, f := range open {
+		if f.Template != "" {
+			for _, r := range tvKF[id] {
+				if r.Template != f.Template {
+					continue
+				}
+				if r.Failed {
+					kfLines = append(kfLines, fmt.Sprintf("KNOWN-FINDING: property=%s %s [%s; template %s is still rejected: %s]", id, f.Description, f.ID, r.Template, firstLine(r.Output)))
+				} else {
+					kfLines = append(kfLines, fmt.Sprintf("NOTE: property=%s known finding %s no longer reproduces (template %s compiles)", id, f.ID, r.Template))
+				}
+			}
+			continue
+		}
 		if f.Witness == nil {
 			continue
 		}
